@@ -73,6 +73,16 @@ Theorem resolve_conflicted_strings_is_source_chain :
 Proof. exact strings_follows_source. Qed.
 Print Assumptions resolve_conflicted_strings_is_source_chain.
 
+Theorem resolve_conflicted_list_is_source_chain :
+  forall H p base B st, resolve_conflicted_list H p base B st = list_src H p base B st.
+Proof. exact list_follows_source. Qed.
+Print Assumptions resolve_conflicted_list_is_source_chain.
+
+Theorem resolve_conflicted_dict_is_source_chain :
+  forall H p base B st, resolve_conflicted_dict H p base B st = dict_src H p base B st.
+Proof. exact dict_follows_source. Qed.
+Print Assumptions resolve_conflicted_dict_is_source_chain.
+
 (* merge_total, dispatch layer: registering a genuine two-sided conflict never fails, whatever the strategy string,
    except for the deliberate "fail" *)
 Theorem conflict_registration_total :
@@ -87,11 +97,43 @@ Theorem fail_strategy_raises :
 Proof. exact tryresolve_fail_raises. Qed.
 Print Assumptions fail_strategy_raises.
 
-(* ---- BLOCK TO SWAP WHEN THE KNOWN FINDINGS OF C03 ARE REPAIRED -------------------------------------------------------
-   The full goal merge_total is refuted on the implementation by concrete inputs (known_findings.d/C03.json; every run
-   replays them from the built-in corpus of harness/c03_common.py).  The inline-family resolvers
-   (resolve_strategy_inline_attachments / _inline_recurse / clear-all via collect_diffs / create_parent_deletion_counter_diff)
-   are not modelled in Gallina yet, so there is no `merge_total_refuted` theorem in Coq: the refutation lives in the check.
-   When they are modelled, `merge_total_refuted` (witnesses = the corpus triples) goes here and is replaced by
-   `merge_total` once the fixes of notes/C03-fix-*.diff are applied.
-   --------------------------------------------------------------------------------------------------------------------- *)
+(* merge_total, level dispatchers: for every strategy any accepted configuration places anywhere, the list- and dict-level
+   dispatchers either return normally or are exactly the call of the (not yet modelled) inline-family hook *)
+Theorem list_dispatcher_total_modulo_hooks :
+  forall c p0 s, In c all_configs -> In (p0, Some s) (cfg_table c) ->
+  forall H p base B,
+  (exists B', resolve_conflicted_list H p base B (Some s) = Ok B') \/
+  resolve_conflicted_list H p base B (Some s) = hk_list H p base B s.
+Proof.
+  exact (fun c p0 s Hc Hin H p base B =>
+           list_dispatch_total_modulo_hooks H p base B s (union_never_placed c p0 s Hc Hin)).
+Qed.
+Print Assumptions list_dispatcher_total_modulo_hooks.
+
+Theorem dict_dispatcher_total_modulo_hooks :
+  forall H p base B s,
+  (exists B', resolve_conflicted_dict H p base B (Some s) = Ok B') \/
+  resolve_conflicted_dict H p base B (Some s) = hk_dict H p base B s.
+Proof. exact dict_dispatch_total_modulo_hooks. Qed.
+Print Assumptions dict_dispatcher_total_modulo_hooks.
+
+(* ---- merge_total is FALSE of the pinned code: the part of the refutation that is modelled in Gallina ---------------------
+   Strategies.clear_all_arm models the `clear-all` arm of resolve_conflicted_decisions_list together with collect_diffs and
+   adjust_patch_level; which of the two known bodies of adjust_patch_level the source has is a generated constant
+   (Gen.Strategies.adjust_patch_level_variant).  The theorem below follows the source either way: while the code is as
+   pinned it says that a builder with a conflict exists on which the arm raises TypeError (witnesses taken from real runs:
+   known findings clear-all-collects-none-diff and collected-diffs-not-wrapped-to-level:clear-all, replayed on the
+   implementation by every run from the built-in corpus); once notes/C03-fix-2.diff is applied the same statement says the
+   witnesses pass.  NOTHING has to be swapped here after the repair; only the known_findings.d/C03.json entries go.
+   The other six findings concern functions that are not modelled (resolve_strategy_inline_attachments / _inline_recurse /
+   _inline_outputs, create_parent_deletion_counter_diff, the differ's add_mime_diff): their refutation is carried by the
+   replayed inputs only. *)
+Theorem clear_all_arm_follows_source : clear_all_status adjust_patch_level_variant.
+Proof. exact clear_all_follows_source. Qed.
+Print Assumptions clear_all_arm_follows_source.
+
+Theorem clear_all_arm_refuted_as_pinned :
+  clear_all_arm APLPinned w_path w_base w_none = Err TypeError /\
+  clear_all_arm APLPinned w_path w_base w_mixed = Err TypeError.
+Proof. exact clear_all_refuted_pinned. Qed.
+Print Assumptions clear_all_arm_refuted_as_pinned.
